@@ -6,6 +6,7 @@ package main
 import (
 	"encoding/json"
 	"fmt"
+	"math"
 	"math/rand"
 	"os"
 	"path/filepath"
@@ -56,13 +57,14 @@ func newGen(rng *rand.Rand, p profile) func(h *histRun, i int) *hop {
 	g.sort = pick(rng, p.sorts)
 	shared := rng.Float64() < p.pShareIdent
 	seeded := rng.Intn(5) == 0
-	keyed := rng.Intn(6) == 0 // all replicas of this history seal their links with one key
+	keyed := rng.Intn(6) == 0                  // all replicas of this history seal their links with one key
+	conc := pick(rng, []int{0, 0, 0, 1, 2, 3}) // LogOptions.Concurrency of the replicas: merges bring more entries than that
 	for r := 0; r < g.nReps; r++ {
 		id := identNames[r%len(identNames)]
 		if shared && r > 0 && rng.Intn(2) == 0 {
 			id = identNames[0]
 		}
-		o := hop{Kind: "new", LogID: "L", Ident: id, Sort: g.sort}
+		o := hop{Kind: "new", LogID: "L", Ident: id, Sort: g.sort, Conc: conc}
 		o.Keyed = keyed
 		if seeded && rng.Intn(3) > 0 {
 			// opened with a clock of its own: small, around 2^53 (where float64 has gaps), wall-clock nanoseconds, 2^62
@@ -330,7 +332,27 @@ func (g *genState) genIter(h *histRun) *hop {
 		return inLog[rng.Intn(len(inLog))]
 	}
 	var start []iface.IPFSLogEntry
-	switch rng.Intn(4) {
+	switch rng.Intn(5) {
+	case 4: // several LTE bounds of which one lies in the past of another: an entry, one of its predecessors, now and then a third
+		sp.HasLTE = true
+		x := pickIn()
+		sp.LTE = []int{x}
+		if x >= 0 {
+			for _, n := range w.created[x].GetNext() {
+				if i, ok := idxOf[n.String()]; ok {
+					if _, held := inMap[n.String()]; held {
+						sp.LTE = append(sp.LTE, i)
+						break
+					}
+				}
+			}
+		}
+		if rng.Intn(3) == 0 {
+			sp.LTE = append(sp.LTE, pickIn())
+		}
+		if rng.Intn(2) == 0 {
+			sp.LTE[0], sp.LTE[len(sp.LTE)-1] = sp.LTE[len(sp.LTE)-1], sp.LTE[0]
+		}
 	case 0: // heads
 		start = l.Heads().Slice()
 	case 1: // single LTE
@@ -394,6 +416,9 @@ func (g *genState) genIter(h *histRun) *hop {
 		a := rng.Intn(len(rng_) + 3)
 		if rng.Intn(6) == 0 {
 			a = 0
+		}
+		if rng.Intn(10) == 0 {
+			a = pick(rng, []int{1 << 60, math.MaxInt}) // "everything" asked for with a no-limit sentinel
 		}
 		sp.Amount = &a
 	}
